@@ -289,6 +289,28 @@ _TIME_MODULES = ('slimta.queue', 'slimta.edge', 'slimta.bounce', 'slimta.relay.s
                  'slimta.util.ptrlookup', 'slimta.redisstorage')
 
 
+def snapshot_reply_constants():
+    """module-level Reply objects of the library (pre-defined responses shared by every session of the process)"""
+    mod = sys.modules.get('slimta.smtp.reply')
+    out = []
+    if mod is not None:
+        for k, v in sorted(vars(mod).items()):
+            if isinstance(v, mod.Reply):
+                out.append((k, v, dict(vars(v))))
+    return out
+
+
+def restore_reply_constants(snap):
+    """-> [(name, before, after)] of the constants modified since ``snap``; restores them."""
+    out = []
+    for k, v, saved in snap:
+        if vars(v) != saved:
+            out.append((k, '%s %s' % (saved.get('_code'), saved.get('_message')), '%s %s' % (v._code, v._message)))
+            vars(v).clear()
+            vars(v).update(saved)
+    return out
+
+
 class World(object):
     """One execution on a fresh hub + virtual loop.
 
@@ -343,25 +365,12 @@ class World(object):
 
     @staticmethod
     def _snapshot_constants():
-        """module-level Reply objects of the library (pre-defined responses shared by every session of the process)"""
-        mod = sys.modules.get('slimta.smtp.reply')
-        out = []
-        if mod is not None:
-            for k, v in sorted(vars(mod).items()):
-                if isinstance(v, mod.Reply):
-                    out.append((k, v, dict(vars(v))))
-        return out
+        return snapshot_reply_constants()
 
     def changed_constants(self):
         """-> [(name, before, after)] for every shared pre-defined Reply that was modified during this execution;
         the objects are restored (a later execution must not inherit the modification)."""
-        out = []
-        for k, v, saved in getattr(self, '_constants', ()):
-            if vars(v) != saved:
-                out.append((k, '%s %s' % (saved.get('_code'), saved.get('_message')), '%s %s' % (v._code, v._message)))
-                vars(v).clear()
-                vars(v).update(saved)
-        return out
+        return restore_reply_constants(getattr(self, '_constants', ()))
 
     def __exit__(self, et, ev, tb):
         try:
